@@ -22,12 +22,16 @@ MANIFEST = {
         engine="UtxoScan",
         text="Exhaustive TLC exploration of specs/UtxoScan (pq, nextBatch, the running batch with the reporter's "
              "requests / initialTxns, chains with creations, spends, later and same-block double spends, "
-             "create-and-spend in one block, best height growing during the scan, per-request answer bags) over every "
+             "create-and-spend in one block, several requested outputs - of one transaction and of different ones - "
+             "paying to ONE script (address re-use: the watch list holds the same script for several outpoints and "
+             "blocks match that only create / spend another output with that script), best height growing during "
+             "the scan, per-request answer bags) over every "
              "interleaving of Enqueue (same outpoint twice, two outputs of one tx, out-of-range index, start below / "
              "at / above the running scan and above the tip), block arrival, a failing answer at every environment "
              "call and Stop relative to the running batch. EVERY transition is replayed on the real UtxoScanner (the "
              "four config callbacks and the lock under its condition variable are gates; real btcd blocks and GCS "
-             "filters) and, in the other direction, thousands of free-running executions of the real scanner are "
+             "filters, the repository's blockFilterMatches over the block's true filter unless the step injects a "
+             "false positive) and, in the other direction, thousands of free-running executions of the real scanner are "
              "recorded at its critical sections, linearised and checked to be paths of the TLC state graph. "
              "AnswerIsFate / AnsweredAtMostOnce / NoCallerLeftWaiting(+AboveTip) of UtxoScanProps.tla are evaluated "
              "by TLC on what the callers of the real scanner got, after every step.",
@@ -214,10 +218,12 @@ def config(tier, seed):
              AllowStop=False, FalsePos=False, free=3000),
         dict(name="rnd", chains=[rc], cat=rcat, best0s="{3, 4}", MaxReq=2, MaxFail=1,
              AllowStop=True, FalsePos=False, free=3000),
-        # address re-use (see qr): both chains, three requests / a failing or stale answer and false positives
-        dict(name="tr", chains=[CHR], cat=CATR, best0s="{2, 4}", MaxReq=3, MaxFail=0,
+        # address re-use (see qr): three requests incl. an out-of-range index of the re-using transaction
+        # (its script stays watched to the end); the second chain with a failing / stale answer, Stop, false
+        # positives and the tip growing by up to two blocks
+        dict(name="tr", chains=[CHR], cat=CATR[:4] + [(1, 2, 1)], best0s="{3, 4}", MaxReq=3, MaxFail=0,
              AllowStop=False, FalsePos=False, free=3000),
-        dict(name="tr2", chains=[CHR2, CHR], cat=CATR2, best0s="{2, 3, 4}", MaxReq=2, MaxFail=1,
+        dict(name="tr2", chains=[CHR2], cat=CATR2, best0s="{2, 3, 4}", MaxReq=2, MaxFail=1,
              AllowStop=True, FalsePos=True, free=3000),
     ]
 
